@@ -87,7 +87,10 @@ def seed_graphics():
     objs[22] = Stream(D(Type=N("XObject"), Subtype=N("Form"), BBox=[0, 0, 200, 200], Matrix=[1, 0, 0, 1, 20, 30],
                         Resources={b"Font": {b"F1": R(20)}, b"XObject": {b"In": R(23)}}),
                       b"q 1 0 0 RG 2 w [3 1] 0 d 10 10 100 50 re S BT /F1 8 Tf 5 5 Td (in form) Tj ET /In Do Q")
-    objs[23] = Stream(D(Type=N("XObject"), Subtype=N("Form"), BBox=[0, 0, 50, 50]), b"0 0 m 10 10 l 20 0 30 10 40 0 c h f*")
+    objs[23] = Stream(D(Type=N("XObject"), Subtype=N("Form"), BBox=[0, 0, 50, 50],
+                        Resources={b"XObject": {b"Lf": R(26)}}), b"0 0 m 10 10 l 20 0 30 10 40 0 c h f* /Lf Do")
+    objs[26] = Stream(D(Type=N("XObject"), Subtype=N("Form"), BBox=[0, 0, 20, 20], Resources={b"Font": {b"F1": R(20)}}),
+                      b"BT /F1 6 Tf (leaf) Tj ET")
     objs[24] = Stream(D(N=3, Alternate=N("DeviceRGB")), b"\x00" * 16)
     objs[25] = D(Type=N("ExtGState"), LW=2, CA=0.5)
     res = {b"Font": {b"F1": R(20)}, b"XObject": {b"Im": R(21), b"Fm": R(22)},
@@ -117,9 +120,11 @@ def seed_filters():
     s3 = Stream(D(Filter=[N("AHx"), N("RL")], DecodeParms=[None, None]), FL.ahx_encode(FL.rl_encode(t3)))
     s4 = Stream(D(Filter=N("Fl"), DecodeParms=D(Predictor=2, Colors=1, Columns=4)),
                 zlib.compress(FL.tiff2_forward(b"q Q ", 1, 4)))
+    t5 = b"BT /F1 12 Tf 50 640 Td (fifth: plain lzw lzw lzw lzw) Tj ET\n"
+    objs[14] = Stream(D(Filter=N("LZWDecode")), FL.lzw_pack(FL.lzw_codes(t5)))
     objs[10], objs[11], objs[12], objs[13] = s1, s2, s3, s4
     objs[30] = len(s1[2])
-    objs[3] = D(Type=N("Page"), Parent=R(2), Contents=[R(10), R(11), R(12), R(13)])
+    objs[3] = D(Type=N("Page"), Parent=R(2), Contents=[R(10), R(11), R(12), R(13), R(14)])
     objs[1] = D(Type=N("Catalog"), Pages=R(2))
     objs[2] = D(Type=N("Pages"), Kids=[R(3)], Count=1, MediaBox=[0, 0, 612, 792], Resources=res)
     return {"name": "filters", "objs": objs, "form": "table"}
